@@ -568,6 +568,76 @@ fn seed_binding<B: SField>(sc: &Scenario) -> Vec<Value> {
     out
 }
 
+
+/// C04, "challenges depend on all earlier prover messages", measured on the real coin: for every absorption in a recorded
+/// transcript the history up to it is replayed on a fresh DefaultRandomCoin, a different digest is absorbed in its place, and the
+/// draws that follow (up to the next absorption) are repeated: a draw that returns the recorded value although the absorbed
+/// message differs does not depend on that message.  Returns, per event of the log, whether the value changed (true for events
+/// that are not draws; query positions are compared when they carry at least 40 bits).
+fn dependency<B: SField, H: ElementHasher<BaseField = B>>(log: &[crate::rec::CCall]) -> Vec<bool> {
+    use winter_math::fields::{CubeExtension, QuadExtension};
+    use winter_utils::{ByteReader, Deserializable, Serializable, SliceReader};
+    let mut dep = vec![true; log.len()];
+    let apply = |coin: &mut DefaultRandomCoin<H>, c: &crate::rec::CCall| -> Option<Vec<u8>> {
+        match c.op {
+            "reseed" => {
+                coin.reseed(H::Digest::read_from_bytes(&c.data).ok()?);
+                None
+            },
+            "draw" => match c.args.first().copied().unwrap_or(1) {
+                1 => coin.draw::<B>().ok().map(|e| e.to_bytes()),
+                2 => coin.draw::<QuadExtension<B>>().ok().map(|e| e.to_bytes()),
+                _ => coin.draw::<CubeExtension<B>>().ok().map(|e| e.to_bytes()),
+            },
+            "ints" => {
+                let nonce = u64::from_le_bytes(c.data[..8].try_into().ok()?);
+                coin.draw_integers(c.args[0] as usize, c.args[1] as usize, nonce).ok().map(|v| v.iter().flat_map(|x| (*x as u64).to_le_bytes()).collect())
+            },
+            _ => None,
+        }
+    };
+    for k in 0..log.len() {
+        if log[k].op != "reseed" {
+            continue;
+        }
+        let seed: Vec<B> = match log.first() {
+            Some(c) if c.op == "new" => match SliceReader::new(&c.data).read_many(c.args[0] as usize) {
+                Ok(v) => v,
+                Err(_) => return dep,
+            },
+            _ => return dep,
+        };
+        let mut coin = DefaultRandomCoin::<H>::new(&seed);
+        for c in &log[1..k] {
+            apply(&mut coin, c);
+        }
+        coin.reseed(H::hash(&log[k].data));
+        for j in k + 1..log.len() {
+            let c = &log[j];
+            match c.op {
+                "reseed" => break,
+                "draw" => {
+                    if let Some(v) = apply(&mut coin, c) {
+                        dep[j] = v != c.data;
+                    }
+                },
+                "ints" => {
+                    let bits = (c.args[0] as f64) * (c.args[1] as f64).log2();
+                    if let Some(v) = apply(&mut coin, c) {
+                        let rec: Vec<u8> = c.ints.iter().flat_map(|x| x.to_le_bytes()).collect();
+                        if bits >= 40.0 {
+                            dep[j] = v != rec;
+                        }
+                    }
+                    break;
+                },
+                _ => {},
+            }
+        }
+    }
+    dep
+}
+
 pub struct Transcript {
     pub out: Vec<String>,
 }
@@ -613,6 +683,7 @@ impl Job for Transcript {
             "meta": proof.context.trace_info().meta().to_vec(), "pub": pub_bytes, "binding": seed_binding::<B>(sc)}).to_string());
         for (role, log) in [("P", &plog), ("V", &vlog)] {
             let mut nclz = 0usize;
+            let dep = dependency::<B, H>(log);
             for (i, c) in log.iter().enumerate() {
                 // the prover's nonce search: keep only the last (successful) proof-of-work evaluation
                 if c.op == "clz" && role == "P" {
@@ -624,6 +695,7 @@ impl Job for Transcript {
                     let mut j = c.to_json();
                     j["ev"] = json!("coin");
                     j["role"] = json!(role);
+                    j["dep"] = json!(true);
                     j["tries"] = json!(nclz);
                     self.out.push(j.to_string());
                     continue;
@@ -631,6 +703,7 @@ impl Job for Transcript {
                 let mut j = c.to_json();
                 j["ev"] = json!("coin");
                 j["role"] = json!(role);
+                j["dep"] = json!(dep[i]);
                 self.out.push(j.to_string());
             }
         }
